@@ -131,10 +131,10 @@ class MapManager(AoE2Object):
         if i and (x or y):
             raise ValueError("Cannot use both xy and i. Choose or XY or I.")
         if i is not None:
-            if 0 <= i < self.map_size:
+            if 0 <= i < self.map_size ** 2:
                 return self.terrain[i]
             else:
-                raise ValueError("Parameter i needs to be: 0 <= i < map_size")
+                raise ValueError("Parameter i needs to be: 0 <= i < map_size ** 2")
         return self.terrain[xy_to_i(x, y, self.map_size)]
 
     def get_tile_safe(self, x: int = None, y: int = None, i: int = None) -> TerrainTile | None:
